@@ -463,6 +463,10 @@ def rule_no_hidden_state(ctx):
     adt = ix.adt(BOARD)
     ctx.check(adt["unsafe_cell_deep"] is False, "Board:no-interior-mutability", "no UnsafeCell (Cell/RefCell/Atomic/Mutex/OnceCell) is reachable in Board's type tree, so `&Board` methods cannot change it",
               bad_what="Board's type tree contains interior mutability: `&self` queries (get_all_moves, is_in_check, ...) may change the position")
+    # positive example for this zero-count rule: the walker does find interior mutability where it exists
+    pos = ix.adt("search::Search")
+    ctx.check(pos["unsafe_cell_deep"] is True, "positive-example:Search-has-a-shared-cell", "the type walker reports interior mutability for Search (Arc<AtomicBool>), so a silent pass on Board is meaningful",
+              bad_what="the interior-mutability walker no longer recognises Search.running: the Board check would pass vacuously")
     e = eff(ix)
     for key in (GET_LEGAL, "board::Board::find_move"):
         ctx.body(key)
